@@ -11,3 +11,5 @@ def run(ctx):
     # tampered hellos that fall back must be forwarded untouched as well
     echcommon.run_family(ctx, ["MCEchHello_c02.cfg"], select=lambda c: c["res"]["kind"] == "pass", sample=600 if ctx.quick else 4000, what="C05 tamper-fallback")
     echcommon.foreign(ctx)
+    # Conn level: a connection whose ECH was not accepted is never interpreted, whatever the backend answers
+    echcommon.echconn_slice(ctx, lambda c: c["first"] != "acc", label="notaccepted")
